@@ -3,20 +3,29 @@
 use serde_json::Value;
 use vcore::ev::{quiet_panics, Ctx, Tier};
 
+mod c01;
 mod c02;
+mod c03;
 mod c04;
 mod c05;
+mod c07;
+mod c08;
 mod c13;
 mod c18;
+mod frames;
 
 type RunFn = fn(&Ctx);
 type ReplayFn = fn(&Ctx, &Value);
 
 fn table(id: &str) -> Option<(RunFn, ReplayFn)> {
     Some(match id {
+        "C01" => (c01::run, c01::replay),
         "C02" => (c02::run, c02::replay),
+        "C03" => (c03::run, c03::replay),
         "C04" => (c04::run, c04::replay),
         "C05" => (c05::run, c05::replay),
+        "C07" => (c07::run, c07::replay),
+        "C08" => (c08::run, c08::replay),
         "C13" => (c13::run, c13::replay),
         "C18" => (c18::run, c18::replay),
         _ => return None,
@@ -38,6 +47,19 @@ fn main() {
         std::process::exit(2);
     }
     let id = args[1].as_str();
+    if id == "dump" {
+        // vcheck dump <hex>: show what the decoder under test makes of a frame
+        let f = hex::decode(&args[2]).expect("hex");
+        match rs1090::decode::Message::try_from(f.as_slice()) {
+            Ok(m) => {
+                println!("{:?}", m);
+                println!("{}", serde_json::to_string(&m).unwrap_or_else(|e| format!("JSON ERROR: {e}")));
+                println!("{}", m);
+            }
+            Err(e) => println!("ERR {e}"),
+        }
+        return;
+    }
     let Some((run, replay)) = table(id) else {
         eprintln!("unknown property {id}");
         std::process::exit(2);
